@@ -58,7 +58,7 @@ def global_option_together_with_a_subdirectory():
     pathspecs, which matched nothing."""
     import os
     kinds_all = []
-    for variant in ("subdir-c", "C-sub-c", "C-C"):
+    for variant in ("subdir-c", "C-sub-c", "C-C", "gitdir-worktree-sub"):
         s = Script("d76" + variant, files=1)
         try:
             b = [s.line("human") for _ in range(3)]
@@ -69,6 +69,8 @@ def global_option_together_with_a_subdirectory():
             s.g("add", "-A")
             if variant == "subdir-c":
                 s.g("-c", "x.y=z", "commit", "-q", "-m", "c", repo=sub)
+            elif variant == "gitdir-worktree-sub":
+                s.g("--git-dir", os.path.join(s.w.repo, ".git"), "--work-tree", s.w.repo, "commit", "-q", "-m", "c", repo=sub)
             elif variant == "C-sub-c":
                 s.g("-C", sub, "-c", "x.y=z", "commit", "-q", "-m", "c", repo=s.w.root)
             else:
